@@ -44,6 +44,29 @@ impl Scalar {
     }
 }
 
+/// Verification hooks, compiled only with `--cfg cryptoxide_verif`: public wrappers around the
+/// crate-private scalar operations so that an external harness can drive them.
+#[cfg(cryptoxide_verif)]
+pub mod verif {
+    use super::Scalar;
+    /// wrapper of `muladd`
+    pub fn muladd(a: &Scalar, b: &Scalar, c: &Scalar) -> Scalar {
+        super::muladd(a, b, c)
+    }
+    /// wrapper of `Scalar::nibbles`
+    pub fn nibbles(a: &Scalar) -> [i8; 64] {
+        a.nibbles()
+    }
+    /// wrapper of `Scalar::bits`
+    pub fn bits(a: &Scalar) -> [i8; 256] {
+        a.bits()
+    }
+    /// wrapper of `Scalar::slide`
+    pub fn slide(a: &Scalar) -> [i8; 256] {
+        a.slide()
+    }
+}
+
 #[cfg(test)]
 mod tests {
     use super::*;
